@@ -204,7 +204,7 @@ where
             let dist_ptr = self.dist.as_mut_ptr();
 
             for (v, w) in self.digraph.out_neighbors_weighted(u) {
-                let w_next = w + w_prev;
+                let w_next = w_prev.saturating_add(*w);
                 let dist_v = unsafe { dist_ptr.add(v) };
 
                 unsafe {
